@@ -297,3 +297,100 @@ def decl_def_params(chk, prog, rule, files):
                       % (f["qname"].replace("vfps::", ""), "" if not moved else " (definition %s, declaration %s)" % (dn, d)),
                       "%s:parameter-order:%s" % (f["qname"].replace("vfps::", ""), [nm for _, nm in moved]))
     return n
+
+
+class CondEval:
+    """Three-valued evaluation of branch conditions of one function under a hypothesis about atomic tests, looking through the
+    spellings a condition can be given: `!`, `&&`, `||`, comparison of a count with 0, a const bool local standing for its
+    initialiser, and a local lambda whose body is `return <expression>` (called with literal arguments).
+    atom(node, env) -> True / False / None; env maps parameter decls of the lambda being looked into to argument nodes."""
+
+    def __init__(self, fn):
+        self.fn = fn
+        self.inits, self.lambdas = {}, {}
+        for x in A.walk(fn["body"]):
+            if x.get("k") == "DeclStmt":
+                for d in x.get("decls", []):
+                    if d.get("k") != "VarDecl" or not isinstance(d.get("init"), dict):
+                        continue
+                    lam = [y for y in A.walk(d["init"]) if y.get("k") == "LambdaExpr"]
+                    if lam:
+                        self.lambdas[d["decl"]] = lam[0]
+                    elif d.get("is_const"):
+                        self.inits[d["decl"]] = d["init"]
+
+    def lambda_of(self, call):
+        """the local lambda a call expression invokes, with its arguments: (LambdaExpr, [args]) or None"""
+        c = A.strip(call)
+        if c.get("k") == "CXXOperatorCallExpr" and c.get("op") == "()" and c.get("args"):
+            d = A.declref(c["args"][0])
+            if d is not None and d.get("decl") in self.lambdas:
+                return self.lambdas[d["decl"]], c["args"][1:]
+        return None
+
+    def resolve(self, n, env):
+        """argument node standing for a lambda parameter"""
+        d = A.declref(n)
+        if d is not None and d.get("decl") in env:
+            return env[d["decl"]]
+        return n
+
+    def tv(self, c, atom, env=None, depth=0):
+        env = env or {}
+        c = A.strip(c)
+        if depth > 6:
+            return None
+        k = c.get("k")
+        if k == "CXXBoolLiteralExpr":
+            return bool(c.get("value"))
+        if k == "UnaryOperator" and c.get("op") == "!":
+            v = self.tv(c["c"][0], atom, env, depth)
+            return None if v is None else (not v)
+        if k == "BinaryOperator" and c.get("op") in ("&&", "||"):
+            a_, b_ = self.tv(c["c"][0], atom, env, depth), self.tv(c["c"][1], atom, env, depth)
+            if c["op"] == "&&":
+                return False if (a_ is False or b_ is False) else (True if (a_ and b_) else None)
+            return True if (a_ is True or b_ is True) else (False if (a_ is False and b_ is False) else None)
+        if k == "BinaryOperator" and c.get("op") in ("!=", ">", "==") and A.strip(c["c"][1]).get("k") == "IntegerLiteral" and A.strip(c["c"][1]).get("value") == 0:
+            v = self.tv(c["c"][0], atom, env, depth)
+            return v if c["op"] in ("!=", ">") or v is None else (not v)
+        if k == "DeclRefExpr" and c.get("decl") in self.inits:
+            return self.tv(self.inits[c["decl"]], atom, env, depth + 1)
+        lam = self.lambda_of(c)
+        if lam is not None:
+            lm, args = lam
+            rets = [y for y in A.walk(lm["body"]) if y.get("k") == "ReturnStmt" and y.get("c")]
+            if len(rets) == 1 and len(lm["body"].get("c", [])) == 1:
+                env2 = dict(env)
+                for p_, a_ in zip(lm.get("params", []), args):
+                    env2[p_["decl"]] = self.resolve(a_, env)
+                return self.tv(rets[0]["c"][0], atom, env2, depth + 1)
+            return None
+        return atom(c, env)
+
+    def return_value(self, ret):
+        """truth value a `return e;` hands back when it is decidable without a hypothesis: literal, or a call of a local lambda all of whose
+        returns are the same literal"""
+        if not ret.get("c"):
+            return None
+        e = A.strip(ret["c"][0])
+        if e.get("k") == "CXXBoolLiteralExpr":
+            return bool(e.get("value"))
+        lam = self.lambda_of(e)
+        if lam is not None:
+            vals = {A.strip(y["c"][0]).get("value") if A.strip(y["c"][0]).get("k") == "CXXBoolLiteralExpr" else "?" for y in A.walk(lam[0]["body"])
+                    if y.get("k") == "ReturnStmt" and y.get("c")}
+            if len(vals) == 1 and "?" not in vals:
+                return bool(vals.pop())
+        return None
+
+    def string_arg(self, n, env):
+        """the string literal an argument denotes (directly, or through a lambda parameter bound to one)"""
+        n = self.resolve(n, env)
+        lit = [y for y in A.walk(n) if y.get("k") == "StringLiteral"]
+        if len(lit) == 1:
+            return lit[0].get("value")
+        refs = [y for y in A.walk(n) if y.get("k") == "DeclRefExpr" and y.get("decl") in env]
+        if len(refs) == 1:
+            return self.string_arg(env[refs[0]["decl"]], {})
+        return None
